@@ -161,7 +161,7 @@ def invalid_universe(rng, copies=1):
 
 
 # ---- spec/RegSeqMC.tla: one implementation test per transition of the sequential registry machine ----
-RG = ["L", "A", "B", "X", "W", "V", "M"]
+RG = ["L", "A", "B", "X", "W", "V", "M", "N"]
 
 
 def rg_graph(k, flag=False):
@@ -179,6 +179,8 @@ def rg_graph(k, flag=False):
     d[n("W")] = struct([field(1, "default", ST(n("L"), True)), field(2, "optional", ST(n("X"), True))])
     d[n("V")] = struct([field(1, "optional", ST(n("X"), True)), field(2, "default", ST(n("L"), True))])
     d[n("M")] = struct([field(1, "default", ST(n("A"), True)), field(2, "default", M(T("string"), ST(n("X"), True)))])
+    # a supported type that meets (by pointer) a type others have built, possibly during a build that failed
+    d[n("N")] = struct([field(1, "default", ST(n("A"), True)), field(2, "optional", ST(n("L"), True))])
     for x in ("X", "W", "V", "M"):
         d[n(x)]["invalid"] = True
     if flag:
